@@ -26,5 +26,5 @@ def uf_re_end(text, pos, regex) -> 'int':
 
 
 def spec_stable(cur, p, regex):
-    """no non-empty match of regex at p (regex 0 means: no pattern configured)"""
-    return regex == 0 or uf_re_end(cur.textstr, p, regex) < 0 or uf_re_end(cur.textstr, p, regex) == p
+    """no non-empty match of regex at p (a falsy regex -- None or '' -- means: no pattern configured)"""
+    return (not regex) or uf_re_end(cur.textstr, p, regex) < 0 or uf_re_end(cur.textstr, p, regex) == p
